@@ -237,6 +237,15 @@ class Series(Arr):
     is_series = True
 
 
+class LabelSeries(Series):
+    """a Series that remembers its index labels (selection made by .loc[labels, col]); assigning it
+    to .loc[...] aligns by label, its .values is positional"""
+
+    def __init__(self, n, f, kind="f", name=None, labels=None):
+        Series.__init__(self, n, f, kind, name)
+        self.labels = labels
+
+
 class IndexObj:
     def __init__(self, arr):
         self.arr = arr
@@ -357,7 +366,7 @@ class _Accessor:
             return f(lab)
         if is_array(lab):
             lf = lab.f
-            return Series(lab.n, lambda j: f(lf(j)), "f")
+            return LabelSeries(lab.n, lambda j: f(lf(j)), "f", labels=lab)
         return f(lab)
 
     def setitem(self, ev, idx, v, lineno):
@@ -370,6 +379,19 @@ class _Accessor:
             if is_array(v):
                 raise _Raise(ExcVal("ValueError", ("setting an array element with a sequence",)))
             self.tbl.cols[col] = (lambda x, _l=lab, _v=v, _o=old: ite(compare("==", x, _l), _v, _o(x)))
+            self.tbl.writes.append((col, lab))
+            return
+        if is_array(lab) and getattr(v, "labels", None) is not None:
+            # Series assigned through .loc: pandas aligns by LABEL -- the target label x receives the
+            # Series' value at the position whose label is x (NaN if x is not among its labels)
+            sl, sv = v.labels, v.f
+            hit = lambda x: member(lab, x)
+            pos = z3.Function("lpos!%d" % next(V._counter), z3.IntSort(), z3.IntSort())
+            jj = fresh("j")
+            ev.path.facts.append(z3.ForAll([jj], z3.Implies(
+                z3.And(jj >= 0, B(compare("<", jj, sl.n))), pos(sl.f(jj)) == jj)))
+            nanv = z3.Real("pandas_nan!%d" % next(V._counter))
+            self.tbl.cols[col] = (lambda x, _o=old: ite(hit(x), ite(member(sl, x), sv(pos(V.I(x))), nanv), _o(x)))
             self.tbl.writes.append((col, lab))
             return
         if is_array(lab):
